@@ -83,6 +83,42 @@ type consumerInfo struct {
 	onOK      map[*ssa.Function]bool           // every path to a non-nil/true return passes a point
 	may       map[*ssa.Function]bool           // contains (transitively) a point
 	strict    bool                             // when set, calls to may-functions count as points
+	constMemo map[ssa.CallInstruction]bool
+}
+
+// constCallPasses: the call has constant arguments and, evaluated with them, the callee passes a point on the
+// (single, fully determined) path to its return — e.g. skipChars(len("{{")) runs its loop body twice.
+func (ci *consumerInfo) constCallPasses(c ssa.CallInstruction, callee *ssa.Function) bool {
+	if ci.constMemo == nil {
+		ci.constMemo = map[ssa.CallInstruction]bool{}
+	}
+	if v, ok := ci.constMemo[c]; ok {
+		return v
+	}
+	ci.constMemo[c] = false
+	args := make([]any, len(c.Common().Args))
+	anyConst := false
+	for i, a := range c.Common().Args {
+		if k, ok := a.(*ssa.Const); ok && k.Value != nil {
+			args[i] = k.Value
+			anyConst = true
+		}
+	}
+	if !anyConst || len(args) != len(callee.Params) {
+		return false
+	}
+	passed := false
+	ip := &Interp{m: ci.m}
+	ip.event = func(x ssa.CallInstruction, depth int) bool {
+		if ci.callPoint(x) {
+			passed = true
+		}
+		return false
+	}
+	ip.Run(callee, args)
+	res := passed // the event lies on the determined prefix of the only feasible path, whatever follows
+	ci.constMemo[c] = res
+	return res
 }
 
 func (m *Model) newConsumerInfo(base []*ssa.Function, expect *ssa.Function, universe []*ssa.Function) *consumerInfo {
@@ -249,6 +285,9 @@ func (ci *consumerInfo) blockConsumes(b *ssa.BasicBlock, from int) bool {
 			}
 			for _, cal := range ci.calleesOf(c) {
 				if ci.always[cal] || (ci.strict && ci.may[cal]) {
+					return true
+				}
+				if ci.may[cal] && ci.constCallPasses(c, cal) {
 					return true
 				}
 			}
@@ -833,6 +872,9 @@ func (ci *consumerInfo) blockConsumesBefore(b *ssa.BasicBlock, idx int) bool {
 			}
 			for _, cal := range ci.calleesOf(c) {
 				if ci.always[cal] || (ci.strict && ci.may[cal]) {
+					return true
+				}
+				if ci.may[cal] && ci.constCallPasses(c, cal) {
 					return true
 				}
 			}
